@@ -420,6 +420,10 @@ func TestVerifC19Syncer(t *testing.T) {
 		}
 	}
 
+	var maxConv time.Duration
+	defer func() {
+		vf.Note(fmt.Sprintf("largest time to convergence seen in a process: %v (bound: max(25 x pullInterval, 10s))", maxConv.Round(10*time.Millisecond)))
+	}()
 	// once the bed is broken (server did not come back) every further case is inconclusive at once
 	rapid.Check(t, func(rt *rapid.T) {
 		if *broken != "" {
@@ -601,6 +605,9 @@ func TestVerifC19Syncer(t *testing.T) {
 			time.Sleep(5 * time.Millisecond)
 		}
 		convTime := time.Since(t0)
+		if okConv && convTime > maxConv {
+			maxConv = convTime
+		}
 		if okConv {
 			// quiet window: nothing may follow the final snapshot
 			time.Sleep(2*pull + 100*time.Millisecond)
